@@ -21,7 +21,7 @@ func init() { Register("C09", runC09) }
 
 func runC09(r *mon.Run) {
 	n := bigN
-	for _, c := range []string{"c09:flip:entropy", "c09:flip:key", "c09:flip:digest", "c09:flip:digest-e-unchanged", "c09:reader:1-byte", "c09:reader:chunks", "c09:reader:fail<32",
+	for _, c := range []string{"c09:flip:entropy", "c09:flip:key", "c09:flip:digest", "c09:flip:digest-e-unchanged", "c09:reader:1-byte", "c09:reader:after-handouts-wiped", "c09:reader:chunks", "c09:reader:fail<32",
 		"c09:reader:fail>=32", "c09:reader:exactly-32-consumed", "c09:rfc6979:match", "c09:rfc6979:digest>=n", "c09:rfc6979:long-digest", "c09:stream:constant", "c09:stream:counter", "c09:stream:repeating"} {
 		r.Require(c)
 	}
@@ -205,6 +205,19 @@ func runC09(r *mon.Run) {
 			} else if bigFromScalar(lr).Cmp(r0) != 0 || bigFromScalar(ls).Cmp(s0) != 0 || v != v0 {
 				w.Fail("c09/reader:"+what, fmt.Sprintf("a %s reader delivering the same 32 bytes gives a different signature (short reads not completed?)", what), det...)
 			}
+		}
+		if i%2 == 0 {
+			// the caller wipes / reuses everything the key object handed out; the nonce is
+			// still the same function of (d, digest, entropy)
+			for _, b := range [][]byte{priv.Bytes(), priv.Scalar().Bytes(), priv.PublicKey().Bytes()} {
+				for j := range b {
+					b[j] = 0
+				}
+			}
+			hs := priv.Scalar()
+			hs.Zero()
+			same(&fixedReader{data: entropy}, "one-shot (after the caller wiped the values the key handed out)")
+			w.Class("c09:reader:after-handouts-wiped")
 		}
 		same(&fixedReader{data: entropy, chunk: 1}, "1-byte-at-a-time")
 		w.Class("c09:reader:1-byte")
